@@ -8,7 +8,7 @@ import "fmt"
 // correctly - never silently wrong.
 
 // LimitKinds lists the generated shapes.
-var LimitKinds = []string{"locals", "params", "free", "free-returned", "free-nested", "selectors", "array-literal", "long-if", "long-loop", "long-logical"}
+var LimitKinds = []string{"locals", "params", "free", "free-returned", "free-nested", "selectors", "array-literal", "long-if", "long-loop", "long-logical", "consts-closure", "globals-selstore"}
 
 // LimitSizes are the boundary sizes per kind.
 func LimitSizes(kind string) []int {
@@ -22,6 +22,9 @@ func LimitSizes(kind string) []int {
 	case "long-if", "long-loop", "long-logical":
 		// number of filler statements (9 bytes of code each: 7000 stays below offset 65536, 9000 goes beyond): jump operands below and beyond 16 bits
 		return []int{7000, 9000}
+	case "consts-closure", "globals-selstore":
+		// two-byte operands (constant index of CLOSURE / CONST, global index of the selector store) below and beyond one byte
+		return []int{250, 255, 256, 257, 300, 600}
 	case "selectors":
 		return []int{254, 255, 256, 257}
 	case "array-literal":
@@ -116,6 +119,27 @@ func Limits(kind string, n int) *Program {
 		body = append(body, &Return{X: I("x")})
 		return &Program{Main: []Stmt{Def("f", &FuncLit{Params: []string{"c"}, Body: body}),
 			Def("out", &ArrayLit{Elems: []Expr{C(I("f"), True()), C(I("f"), False())}}), Set(I("f"), Undef())}}
+	case "consts-closure":
+		// n distinct constants, then (inside a function) a closure that captures a local: its CLOSURE operand is >= n
+		var main []Stmt
+		var sum Expr = N("0")
+		for i := 0; i < n; i++ {
+			main = append(main, Def(v(i), S(fmt.Sprintf(`"c%d"`, i))))
+		}
+		_ = sum
+		body := []Stmt{Def("x", N("7")), Def("g", &FuncLit{Body: []Stmt{&Return{X: B("+", I("x"), N("1234567"))}}}), &Return{X: C(I("g"))}}
+		main = append(main, Def("f", &FuncLit{Body: body}), Def("out", &ArrayLit{Elems: []Expr{C(I("f")), I(v(0)), I(v(n - 1))}}), Set(I("f"), Undef()))
+		return &Program{Main: main}
+	case "globals-selstore":
+		// n globals, then index / selector assignment through the last one and reads of its neighbours
+		var main []Stmt
+		for i := 0; i < n-1; i++ {
+			main = append(main, Def(v(i), &ArrayLit{Elems: []Expr{N(fmt.Sprint(i))}}))
+		}
+		main = append(main, Def("m", &MapLit{Keys: []string{"k"}, Vals: []Expr{N("0")}}), Def("a", &ArrayLit{Elems: []Expr{N("0")}}),
+			Set(&Sel{X: I("m"), Name: "k"}, N("42")), Set(&Index{X: I("a"), I: N("0")}, N("43")),
+			Def("out", &ArrayLit{Elems: []Expr{&Sel{X: I("m"), Name: "k"}, &Index{X: I("a"), I: N("0")}, I(v(0)), I(v((n - 1) % 256)), I(v(n - 2))}}))
+		return &Program{Main: main}
 	case "selectors":
 		// m := {}; cur := m; build a chain of n nested maps, then assign through the whole chain
 		main := []Stmt{Def("m", &MapLit{}), Def("cur", I("m"))}
